@@ -571,7 +571,7 @@ Definition is_instance (v : pv) (cls : string) : option bool :=
 Definition builtin_names : list string :=
   ["len"; "bytes"; "int"; "bool"; "str"; "tuple"; "list"; "set"; "range"; "isinstance"; "enumerate"; "round"; "float"; "getattr"].
 Definition builtin_types : list string := ["tuple"; "list"; "int"; "bool"; "str"; "bytes"; "set"].
-Definition module_names : list string := ["struct"; "crcmod"].
+Definition module_names : list string := ["struct"; "crcmod"; "copy"; "queue"].
 
 Definition call_builtin (P : prog) (name : string) (args : list pv) : res pv :=
   if String.eqb name "len" then match args with [v] => py_len v | _ => Exc "TypeError" end
@@ -643,6 +643,9 @@ Definition call_builtin (P : prog) (name : string) (args : list pv) : res pv :=
   else if String.eqb name "struct.pack" then struct_pack args
   else if String.eqb name "struct.unpack" then struct_unpack args
   else if String.eqb name "struct.calcsize" then struct_calcsize args
+  else if String.eqb name "copy.deepcopy" then
+    (* values are immutable trees: a deep copy is the value itself *)
+    match args with [v] => Ok v | _ => Exc "TypeError" end
   else if String.eqb name "crcmod.predefined.mkCrcFun" then
     match args with
     | [PStr n] => match lookup n (p_crcs P) with Some _ => Ok (PCrc n) | None => Unsupported "crc name" end
